@@ -2203,7 +2203,7 @@ func (p *wat2cWorker) buildFunc_ins(w io.Writer, fn *ast.Func, stk *valueTypeSta
 	case token.INS_F32_CONVERT_I32_U:
 		sp0 := stk.Pop(token.I32)
 		ret0 := stk.Push(token.F32)
-		fmt.Fprintf(w, "%sR%d.f32 = (float)(R%d.u32); // %s\n",
+		fmt.Fprintf(w, "%sR%d.f32 = (float)((uint32_t)(R%d.i32)); // %s\n",
 			indent, ret0, sp0,
 			insString(i),
 		)
@@ -2217,7 +2217,7 @@ func (p *wat2cWorker) buildFunc_ins(w io.Writer, fn *ast.Func, stk *valueTypeSta
 	case token.INS_F32_CONVERT_I64_U:
 		sp0 := stk.Pop(token.I64)
 		ret0 := stk.Push(token.F32)
-		fmt.Fprintf(w, "%sR%d.f32 = (float)(R%d.u64); // %s\n",
+		fmt.Fprintf(w, "%sR%d.f32 = (float)((uint64_t)(R%d.i64)); // %s\n",
 			indent, ret0, sp0,
 			insString(i),
 		)
@@ -2238,7 +2238,7 @@ func (p *wat2cWorker) buildFunc_ins(w io.Writer, fn *ast.Func, stk *valueTypeSta
 	case token.INS_F64_CONVERT_I32_U:
 		sp0 := stk.Pop(token.I32)
 		ret0 := stk.Push(token.F64)
-		fmt.Fprintf(w, "%sR%d.f64 = (double)(R%d.u32); // %s\n",
+		fmt.Fprintf(w, "%sR%d.f64 = (double)((uint32_t)(R%d.i32)); // %s\n",
 			indent, ret0, sp0,
 			insString(i),
 		)
@@ -2252,7 +2252,7 @@ func (p *wat2cWorker) buildFunc_ins(w io.Writer, fn *ast.Func, stk *valueTypeSta
 	case token.INS_F64_CONVERT_I64_U:
 		sp0 := stk.Pop(token.I64)
 		ret0 := stk.Push(token.F64)
-		fmt.Fprintf(w, "%sR%d.f64 = (double)(R%d.u64); // %s\n",
+		fmt.Fprintf(w, "%sR%d.f64 = (double)((uint64_t)(R%d.i64)); // %s\n",
 			indent, ret0, sp0,
 			insString(i),
 		)
